@@ -152,31 +152,7 @@ func runC10(w *World, r *Report) {
 	if less := w.Fn(pkgQueue, "PriorityQueue.Less"); less == nil {
 		r.Undec("R4", "Less", token.NoPos, "function not found")
 	} else {
-		pi, pj := "param:pq[param:i].priority", "param:pq[param:j].priority"
-		ti, tj := "param:pq[param:i].timestamp", "param:pq[param:j].timestamp"
-		n := 0
-		for _, alt := range ReturnAlts(less, 0) {
-			n++
-			rels := relsOfConds(alt.Conds)
-			eq, _ := FindRel(rels, func(v ssa.Value) bool { return Path(v) == pi }, func(v ssa.Value) bool { return Path(v) == pj })
-			var got Rel
-			ok := false
-			if rel, isRel := NormCond(Cond{V: alt.Val, Pol: true}); isRel {
-				got = rel
-				lp, rp := Path(rel.L), Path(rel.R)
-				switch eq {
-				case "==":
-					ok = (lp == ti && rp == tj && rel.Op == "<") || (lp == tj && rp == ti && rel.Op == ">")
-				case "!=":
-					ok = (lp == pi && rp == pj && rel.Op == "<") || (lp == pj && rp == pi && rel.Op == ">")
-				}
-			}
-			r.Check(ok, "R4", "Less/"+map[string]string{"==": "tie-break-by-arrival", "!=": "by-priority"}[eq]+"", posOf(alt.Ret),
-				"when priority_i %s priority_j returns %s %s %s (want priority ascending, ties by earlier timestamp)", eq, Path(got.L), got.Op, Path(got.R))
-		}
-		if n != 2 {
-			r.Undec("R4", "Less/shape", less.Pos(), "expected two return alternatives, found %d", n)
-		}
+		checkLessByOrderings(w, r, "R4", less, "priority", "timestamp")
 		// heap protocol: Push appends, Pop removes the last element, Swap swaps
 		if pop := w.Fn(pkgQueue, "PriorityQueue.Pop"); pop != nil {
 			okPop := false
